@@ -46,6 +46,14 @@ def d1(cx: Cx, ob: Ob) -> None:
             if self_call(t, me) and t[1][2] not in ("expand", "parse_curie"):
                 ob.violate(fn.qualname, where(fn, line), f"is_curie is defined through `{show(t)[:60]}`, not through expand/parse_curie of its argument", detail="callee")
                 main = True
+            elif is_const(t, False) and any(g.kind == "guard" and g.b is True and _uri_test(g.a, me, arg) == 1 for g in ctx.guards):
+                ob.violate(
+                    fn.qualname,
+                    where(fn, line),
+                    "is_curie answers False for every string the converter also recognises as a URI: a string can be both (a URI-prefix synonym such as 'GO:' or a CURIE prefix 'http'), and is_curie must still say whether it expands",
+                    witness="records GO -> {http://.../GO_, synonym 'GO:'}: expand('GO:0032571') is not None but is_curie('GO:0032571') is False",
+                    detail="uri-exclusion",
+                )
             else:
                 ob.undecide(f"is_curie returns `{show(t)[:60]}`, not a None-test")
             continue
@@ -228,3 +236,17 @@ def x6(cx: Cx, ob: Ob) -> None:
     from .c02 import none_scope
 
     scan_none_discipline(cx, ob, none_scope(cx))
+
+
+@obligation("C07-X7", "IDX (shared with C01/C02): the tables is_uri / is_curie / parse consult - prefix_map, synonym_to_prefix, reverse_prefix_map, trie - hold every prefix, synonym, URI prefix and URI-prefix synonym of every record, unconditionally and completely, on the constructor path and in _index ('its prefix is known' means known to the records)", floor=8)
+def x7(cx: Cx, ob: Ob) -> None:
+    from .c01 import check_table_roles
+
+    check_table_roles(cx, ob, ["prefix_map", "synonym_to_prefix", "reverse_prefix_map", "trie"])
+
+
+@obligation("C07-X5", "pairing (shared with C05-D4): every normally returning path of add_record merges or appends and then unconditionally re-indexes the changed record", floor=2)
+def x5(cx: Cx, ob: Ob) -> None:
+    from .c05 import check_add_record_pairing
+
+    check_add_record_pairing(cx, ob)
